@@ -2261,7 +2261,7 @@ async fn handle_packet(
                     // the incoming source) is a separate concern gated by
                     // `enable_latching` inside handle_stun_request — it is NOT the same
                     // as "should we even reply to this STUN message".
-                    handle_stun_request(&sender, &msg, addr, inner).await;
+                    handle_stun_request(&sender, &msg, packet, addr, inner).await;
                 } else if msg.class == StunClass::SuccessResponse {
                     let mut map = inner.pending_transactions.lock();
                     if let Some(tx) = map.remove(&msg.transaction_id) {
@@ -2373,9 +2373,28 @@ async fn handle_packet(
 async fn handle_stun_request(
     sender: &IceSocketWrapper,
     msg: &StunDecoded,
+    packet: &[u8],
     addr: SocketAddr,
     inner: Arc<IceTransportInner>,
 ) {
+    // RFC 8445 §7.3 / RFC 5389 §10.1.2: an ICE connectivity check must carry
+    // USERNAME "<our ufrag>:<peer ufrag>" and a MESSAGE-INTEGRITY keyed with our
+    // password. Anything else is dropped silently, before it can be answered,
+    // create a peer-reflexive candidate or nominate a pair. Plain RTP/SRTP mode
+    // keeps answering bare probes (non-ICE peers such as SIP phones send them).
+    if inner.config.transport_mode == crate::TransportMode::WebRtc {
+        let local = inner.local_parameters.lock().clone();
+        let username_ok = msg
+            .username
+            .as_deref()
+            .and_then(|u| u.strip_prefix(local.username_fragment.as_str()))
+            .is_some_and(|rest| rest.starts_with(':'));
+        if !username_ok || !msg.check_integrity(packet, local.password.as_bytes()) {
+            debug!("Dropping unauthenticated STUN request from {}", addr);
+            return;
+        }
+    }
+
     let response = StunMessage::binding_success_response(msg.transaction_id, addr);
 
     #[cfg(any(test, feature = "simulator"))]
